@@ -492,6 +492,8 @@ class Wikicode(StringMixIn):
         """
         if isinstance(obj, (Node, Wikicode)):
             context, index = self._do_strong_search(obj, recursive)
+            # Read the value first: it may be a view that contains the target
+            value = list(parse_anything(value).nodes)
             for _ in range(index.start, index.stop):
                 context.nodes.pop(index.start)
             context.insert(index.start, value)
